@@ -876,9 +876,16 @@ def sweeps_stream(ctx, cirq, cg, v2, n):
     import gzip
     from cirq_google.api.v2 import run_context_pb2
     rng = ctx.rng
-    for case in range(n):
+    from cirq_google.study import DeviceParameter
+    specials = [cirq.Points('a', [0.1, 0.2], metadata=DeviceParameter(path=['x', 'y'], idx=0)),
+                cg.study.FiniteRandomVariable('a', distribution={0.1: 0.25, 2.0: 0.5, -1.0: 0.25}, seed=0, length=8),
+                cirq.ListSweep([{'a': 1}, {'b': 2}]), cirq.ListSweep([{'a': 1, 'b': 0.1}, {'a': 2, 'b': 0.2}]), cirq.UnitSweep,
+                cirq.Zip(cirq.Points('a', [1, 2, 3]), cirq.Points('b', [0.5, 0.25])), cirq.ZipLongest(cirq.Points('a', [1, 2, 3]), cirq.Points('b', [0.5, 0.25])),
+                cirq.Product(cirq.Zip(cirq.Points('a', [1, 2]), cirq.Points('b', [3, 4])), cirq.Linspace('c', 0, 1, 3)),
+                cirq.Concat(cirq.Points('a', [1, 2]), cirq.Linspace('a', 0, 1, 3))]
+    for case in range(n + len(specials)):
         keys = rng.sample(['a', 'b', 'c', 'theta'], rng.choice([1, 2, 3]))
-        s = gen_sweep(ctx, cirq, cg, keys)
+        s = specials[case] if case < len(specials) else gen_sweep(ctx, cirq, cg, keys)
         f64 = rng.random() < 0.3
         rp = dict(kind='sweep', repr=repr(s), float64=f64)
         try:
@@ -935,12 +942,21 @@ def sweeps_stream(ctx, cirq, cg, v2, n):
                 got_reps == exp_reps and [sweep_values(g) for g in got_sw] == [sweep_values(round_sweep(cirq, e, f64)) for e in sl]))
             ctx.count('run_context', [kind, repr(sweepable), repr(reps), compress, f64], isinstance(reps, list) and len(reps) > 1,
                       sample=dict(sweepable=repr(sweepable)[:300], repetitions=reps, compressed=compress, decoded_repetitions=got_reps))
-            hetero = any(isinstance(x, cirq.ListSweep) and len({tuple(sorted(map(str, pr.param_dict))) for pr in x}) > 1 for x in sl)
             if not ok:
-                frv = got_reps == exp_reps and 'FiniteRandomVariable' in repr(sweepable) and got_sw is not None and \
-                    [sweep_desc(cirq, g, True) for g in got_sw if not isinstance(g, cirq.ListSweep)] == [sweep_desc(cirq, e, f64) for e in sl if not isinstance(e, cirq.ListSweep)]
-                ctx.violation('sweep:listsweep-heterogeneous' if hetero else ('sweep:finite-random-variable-order' if frv else 'run_context:roundtrip'),
-                              f'run_context_to_proto({sweepable!r}, {reps}) decodes to repetitions {got_reps} and sweeps {got_sw!r}', dict(rp, sweepable=repr(sweepable), repetitions=reps))
+                # is it the run context, or one of its sweeps on its own?
+                sig = 'run_context:roundtrip'
+                if got_reps == exp_reps and got_sw is not None and len(got_sw) == len(sl):
+                    alone = [v2.sweep_from_proto(v2.sweep_to_proto(e, use_float64=f64)) for e in sl]
+                    if [sweep_values(g) for g in got_sw] == [sweep_values(a) for a in alone]:
+                        for e, a in zip(sl, alone):
+                            if sweep_values(a) != sweep_values(round_sweep(cirq, e, f64)):
+                                if isinstance(e, cirq.ListSweep) and len({tuple(sorted(map(str, pr.param_dict))) for pr in e}) > 1:
+                                    sig = 'sweep:listsweep-heterogeneous'
+                                elif 'FiniteRandomVariable' in repr(e):
+                                    sig = 'sweep:finite-random-variable-order'
+                                else:
+                                    sig = 'sweep:values'
+                ctx.violation(sig, f'run_context_to_proto({sweepable!r}, {reps}) decodes to repetitions {got_reps} and sweeps {got_sw!r}', dict(rp, sweepable=repr(sweepable), repetitions=reps))
 
 
 # ------------------------------------------------------------------ multi-program and circuit-function forms
